@@ -134,6 +134,8 @@ def rand_version(rng, big=False):
         up = rand_ident(rng)
         if rev is None: up = up.replace("-", ".")
     if ep is not None and rng.random() < 0.15: up += ":" + rng.choice(UPSTREAMS)
+    if ep is not None and rng.random() < 0.15: up = rng.choice(UPSTREAMS) + ":" + up
+    if ep is not None and rng.random() < 0.02: up = rng.choice([up + ":", ":" + up, up + "::" + up, ":"])     # empty segment
     if rev is not None and rng.random() < 0.15: up += "-" + rng.choice(["1", "x", "2.0"])
     if big:
         up = rng.choice(["20230101120000", "2147483648", "1.99999999999", "0~4294967296"])
@@ -180,7 +182,7 @@ def corrupt_relation(rng, r):
 
 def exhaustive_relations():
     quals = [None, "any"]
-    vers = [None, ("ge", None, "1", None), ("lt", 1, "2.0~rc1", "3"), ("eq", 0, "1:2-3", "4")]
+    vers = [None, ("ge", None, "1", None), ("lt", 1, "2.0~rc1", "3"), ("eq", 0, "1:2-3", "4"), ("gt", 7, "09:09:1", None)]
     archs = [None, [], ["amd64"], ["!amd64"], ["amd64", "!i386"], ["!a", "!b", "!c"]]
     profs = [[], [["x"]], [["!x"]], [["x", "!y"]], [["x"], ["y"]], [["x", "y"], ["!z"]], [["x"], ["!y"], ["z"]], [["x", "!y", "z"]]]
     for q, v, a, p in itertools.product(quals, vers, archs, profs):
@@ -193,6 +195,7 @@ def value_cases(tier, rng, prefix, conv=False):
     def add(rs):
         s = rels_s(rs)
         if s in seen: return
+        if conv and not relations_valid(rs): return     # the conversion clauses are about in-domain values only
         seen.add(s); cases.append((f"{prefix}{len(cases)}", [s]))
     # hand-picked corners
     a, b, c = mk("a"), mk("b", "any"), mk("c", None, ("le", None, "1.0", "1"))
@@ -200,6 +203,9 @@ def value_cases(tier, rng, prefix, conv=False):
         add(rs)
     for op in OPS:
         add([[mk("a", None, (op, None, "1", None))]])
+    for up in ["1:2:3", "0:0:0.0", "1::2", ":", "1:", ":1", "::"]:       # colons in the upstream part (needs an epoch)
+        add([[mk("a", None, ("eq", 3, up, None), ["!amd64", "i386"])]])
+        add([[mk("a", "any", ("le", 0, up, "1"))]])
     ex = list(exhaustive_relations())
     for r in ex: add([[r]])
     for i in range(0, len(ex) - 2, 7):
